@@ -4,7 +4,7 @@ from __future__ import annotations
 import typed
 
 ID = "C09"
-THEOREMS = ["no_callback_no_effect", "callback_effect", "class_before_method"]
+THEOREMS = ["follow_writer", "follow_appends", "follow_effects_appended", "follow_error_independent", "followL_appends", "no_callback_no_effect", "callback_effect", "class_before_method"]
 RULE = (
     "generated class models (gen/classes.py: Trk, Cal, Jet, Vec[T](Iterable[T]), JVec(Vec[Jet]), Evt, an optional registered "
     "collection class, two registered functions; 0-4 parameters per method with a random suffix of defaults of int/float/"
@@ -14,7 +14,23 @@ RULE = (
     "dictionary fields, lambda parameter names re-used across nesting levels, method names shared between classes; "
     "non-trivial = every case; distinct = distinct (class model, operator, lambda source)"
 )
-EXPLANATION = ('Theorems: callback_effect, class_before_method, no_callback_no_effect (local laws of the callback machinery). Correspondence: as C07 (callback log and MetaData list are part of the compared observation). Oracle: real callbacks that log (tag, call-site text) and attach tagged MetaData; the generator predicts the exact log (post-order of typed call sites: receiver, arguments, then the site itself, class-level before method-level; nothing for absent sites), the MetaData chain on args[0] of the resulting query upstream of the operator, and the rewritten call sites (renamed method, appended argument, removed [param] subscript). The exactness theorem against a declarative list of call sites is not proved yet (partial).')
+EXPLANATION = (
+    "Main theorem follow_writer (Props/C09Writer.lean; induction over the fuel through all five mutually recursive functions of "
+    "the follower model: follow, followL, methodCall, candLoop, onStreamObj): the follower is a WRITER - for every class model, "
+    "scope and expression, following from a stream state with MetaData list dm ++ m and callback log dl ++ l gives exactly the "
+    "result of following from (m, l) with dm / dl put in front (same rewritten expression, same type, same failure). Hence "
+    "follow_appends / follow_effects_appended: what an expression contributes (MetaData dictionaries, log entries, in order) is a "
+    "function of the expression alone and is appended to whatever earlier call sites attached - nothing is dropped, duplicated or "
+    "reordered, also through nested collection lambdas (where the model restarts the MetaData list and re-attaches it) and through "
+    "the receiver being re-visited for its type; follow_error_independent: a refusal does not depend on earlier effects; "
+    "followL_appends: arguments contribute left to right. Local laws: callback_effect (one log entry, MetaData appended, returned "
+    "call site passed on), class_before_method, no_callback_no_effect. Correspondence: as C07 (callback log and MetaData list are "
+    "part of the compared observation). Oracle: real callbacks that log (tag, call-site text) and attach tagged MetaData; the "
+    "generator predicts the exact log (post-order of typed call sites: receiver, arguments, then the site itself, class-level "
+    "before method-level, class-level callbacks inherited along the class chain; nothing for absent sites), the MetaData chain on "
+    "args[0] of the resulting query upstream of the operator, and the rewritten call sites. PARTIAL: the list of sites itself is "
+    "predicted by the generator, not derived from a declarative relation in Lean."
+)
 ASSUMPTIONS = ['callbacks are described by what they do (attach MetaData, rename, append an argument)']
 
 
